@@ -110,7 +110,12 @@ func vfC07(env *vfc.Env) {
 		}
 		info := map[string]interface{}{"case": c, "gc_range": []int{rg[0], rg[1]}, "merge": merge, "dst": st.Dst, "dst_kind": dstKind}
 		sut.Destroy()
-		v := &vfCrashVerifier{cfg: cfg, keys: keys, res: res, id: id, prop: "c07", replay: info, written: wr.written, expected: expected}
+		mi := 0
+		if merge {
+			mi = 1
+		}
+		v := &vfCrashVerifier{cfg: cfg, keys: keys, res: res, id: id, prop: "c07", replay: info, written: wr.written, expected: expected,
+			stage2Every: a.Stage2Every, stage2Phase: h + int(env.Seed%7), max2: a.Max2, gcAgain: []int{rg[0], rg[1], mi}}
 		// context for signatures: which destination kind
 		v.prop = "c07"
 		vfVerifyAll(v, snaps, a.Workers)
